@@ -47,9 +47,9 @@ func (j *job) runOps(ops []*token, trace func(string)) (int, []fired) {
 			return i, []fired{{"panic", "query after " + t.name + " panicked: " + firstLine(p)}}
 		}
 		if trace != nil {
-			trace(fmt.Sprintf("  %-10s -> added=%v err=%v | TwoThirdsMajority=%s HasTwoThirdsAny=%v HasAll=%v | reference: signers A=%s B=%s A'=%s nil=%s",
+			trace(fmt.Sprintf("  %-10s -> added=%v err=%v | TwoThirdsMajority=%s HasTwoThirdsAny=%v HasAll=%v | reference: signers A=%s B=%s A'=%s A^=%s nil=%s",
 				t.name, added, errStr(err), majName(ob2), ob2.any, ob2.all, maskStr(or2.signers(j.n, bA), j.n), maskStr(or2.signers(j.n, bB), j.n),
-				maskStr(or2.signers(j.n, bAp), j.n), maskStr(or2.signers(j.n, bNil), j.n)))
+				maskStr(or2.signers(j.n, bAp), j.n), maskStr(or2.signers(j.n, bAr), j.n), maskStr(or2.signers(j.n, bNil), j.n)))
 		}
 		fs := j.judge(ob, t, added, err, k2 != key, ob2, or2)
 		if (len(fs) == 0 || replayContinue) && j.typ == kproto.PrecommitType && ob2.ok && ob2.maj > 0 {
@@ -148,13 +148,11 @@ func kindSet(ops []*token) string {
 		}
 		return k
 	}
-	hasA, hasAp := false, false
+	members := map[string]bool{} // members of the family {A, A', A^} that occur
 	for _, t := range ops {
-		switch base(t) {
-		case "A":
-			hasA = true
-		case "A'":
-			hasAp = true
+		switch b := base(t); b {
+		case "A", "A'", "A^":
+			members[b] = true
 		}
 	}
 	letters := map[string]string{}
@@ -162,17 +160,17 @@ func kindSet(ops []*token) string {
 		if strings.HasPrefix(k, "!") {
 			return k
 		}
-		root, prime := k, ""
-		if k == "A'" {
+		root, mark := k, ""
+		if k == "A'" || k == "A^" {
 			root = "A"
-			if hasA && hasAp {
-				prime = "'"
+			if len(members) > 1 {
+				mark = k[1:]
 			}
 		}
 		if letters[root] == "" {
 			letters[root] = string(rune('X' + len(letters)))
 		}
-		return letters[root] + prime
+		return letters[root] + mark
 	}
 	m := map[string]bool{}
 	for _, t := range ops {
